@@ -119,6 +119,18 @@ let handle = function
            PExtend (if a = "" then [] else List.map parse_list (String.split_on_char ';' a))
          | _ -> failwith "bad psm op" in
        r2 (path_segments_session d u (List.map op args))
+     | "qpm" ->
+       (* qpm <finish flag> <op>*   op = a<k>=<v> | k<k> | x<k>=<v>;<k>=<v>... | c *)
+       let pair s = match String.split_on_char '=' s with
+         | [k; v] -> (parse_list k, parse_list v) | _ -> failwith "bad pair" in
+       let op s = let a = String.sub s 1 (String.length s - 1) in
+         match s.[0] with
+         | 'a' -> let (k, v) = pair a in OpAppendPair (k, v)
+         | 'k' -> OpAppendKeyOnly (parse_list a)
+         | 'x' -> OpExtendPairs (if a = "" then [] else List.map pair (String.split_on_char ';' a))
+         | 'c' -> OpClear
+         | _ -> failwith "bad qpm op" in
+       r1 (query_pairs_session d u (List.map op (List.tl args)))
      | "q_set_protocol" -> r2 (q_set_protocol d u (l 0))
      | "q_set_username" -> r2 (q_set_username d u (l 0))
      | "q_set_password" -> r2 (q_set_password d u (l 0))
@@ -139,6 +151,11 @@ let handle = function
     String.concat " " (List.concat_map (fun a ->
         so show_list (index_from d u a) :: so show_list (index_to d u a)
         :: List.map (fun b -> so show_list (index_range d u a b)) all_positions) all_positions)
+  | ["qpairs"; dbg; u] ->
+    (match query_pairs (dbg_of dbg) (parse_url_tok u) with
+     | None -> "panic"
+     | Some None -> "fuel"
+     | Some (Some l) -> if l = [] then "-" else String.concat "&" (List.map (fun (k, v) -> show_list k ^ "=" ^ show_list v) l))
   | ["qget"; dbg; u] ->
     let d = dbg_of dbg and u = parse_url_tok u in
     String.concat " " [ show_list (q_href u); so show_list (q_protocol u); so show_list (q_username d u);
